@@ -19,6 +19,18 @@ pub(crate) fn bare_zalsa() -> Zalsa {
     }
 }
 
+impl Zalsa {
+    /// What `Zalsa::insert_jar` does with each ingredient a jar creates (minus the jar map).
+    pub(crate) fn verif_push(&mut self, ingredient: Box<dyn Ingredient>) {
+        let expected_index = ingredient.ingredient_index();
+        if ingredient.requires_reset_for_new_revision() {
+            self.ingredients_requiring_reset.push(expected_index);
+        }
+        self.ingredients_vec.push(ingredient);
+        assert!(expected_index.as_u32() as usize == self.ingredients_vec.len() - 1);
+    }
+}
+
 /// Records which `Cancelled` variant was thrown; stands in for `Cancelled::throw` (which unwinds).
 pub(crate) static mut THROWN: u8 = 0;
 #[cfg(kani)]
@@ -240,7 +252,7 @@ pub(crate) mod oracle {
         unsafe { std::mem::transmute::<std::ptr::NonNull<()>, crate::database::RawDatabase<'a>>(std::ptr::NonNull::dangling()) }
     }
 
-    //@off(cbmc-does-not-finish) id=K-Z-2 kind=B bound=3-ingredients,1-registered props=C05 fn=Zalsa::new_revision,Zalsa::evict_lru
+    //@off(pending-measurement) id=K-Z-2 kind=B bound=3-ingredients,1-registered props=C05 fn=Zalsa::new_revision,Zalsa::evict_lru
     //@ pre: 3 ingredients, exactly one (symbolic which) registered as requiring reset; choose new_revision or evict_lru
     //@ post: reset_for_new_revision is called exactly once, on the registered ingredient; new_revision returns current+1 and installs it; evict_lru leaves the revision alone
     #[cfg_attr(kani, kani::proof)]
